@@ -20,8 +20,9 @@ type xmlEncoder struct {
 func NewXMLEncoder(prefs XmlPreferences) Encoder {
 	var indentString = ""
 
-	for index := 0; index < prefs.Indent; index++ {
-		indentString = indentString + " "
+	if prefs.Indent > 0 {
+		// (built in one go: appending one space at a time copies the string each time)
+		indentString = strings.Repeat(" ", prefs.Indent)
 	}
 	return &xmlEncoder{indentString, nil, prefs, ""}
 }
